@@ -66,6 +66,11 @@ def compare(ctx, route, orig, back, dialects, case, variant):
                 if a != b:
                     sig, detail = "sql-differs", {"dialect": d, "orig": a[:300], "back": b[:300]}
                     break
+    if not sig and back is not None:
+        # load() rebuilds through append/set: every child must record the parent, arg name and list index it is stored under
+        probs = canon.check_links(back)
+        if probs:
+            sig, detail = f"links-after-roundtrip:{probs[0][0]}", {"problem": probs[0]}
     ctx.count("roundtrips_compared")
     if sig:
         ctx.violation(f"{route}:{variant}:{sig}", {"sql": case["sql"], "dialect": case["dialect"], **detail}, case)
